@@ -280,7 +280,7 @@ pub fn gen_zone(r: &mut Rng, o: ZoneOpts) -> ZoneSpec {
     let mut z = ZoneSpec { version, types, trans, leaps, rule, rule_style: style, desig_mode: r.below(2) as u8, indicators: r.below(4) as u8, decoy: if r.chance(1, 2) { 0 } else { 1 + r.next() % 1_000_000 } };
 
     // make the last transition agree with the rule (a well-formed file does)
-    if z.rule.is_some() && !z.trans.is_empty() && z.expected().is_err() {
+    if z.rule.is_some() && !z.trans.is_empty() && !z.valid() {
         let cands: Vec<TypeSpec> = match z.rule.as_ref().unwrap() {
             RuleSpec::Fixed { off, desig } => vec![TypeSpec { off: *off, dst: false, desig: desig.clone(), isstd: false, isut: false }],
             RuleSpec::Alt { std_off, std_desig, dst_off, dst_desig, .. } => {
@@ -294,7 +294,7 @@ pub fn gen_zone(r: &mut Rng, o: ZoneOpts) -> ZoneSpec {
             let last = z.trans.len() - 1;
             for k in 0..cands.len() {
                 z.trans[last].1 = (base + k) as u8;
-                if z.expected().is_ok() {
+                if z.valid() {
                     fixed = true;
                     break;
                 }
@@ -606,7 +606,7 @@ pub fn gen_c15(seed: u64) -> Scenario {
         if !s.trans.is_empty() {
             let (t, _) = s.trans[r.usize(s.trans.len())];
             instants.push(t);
-            instants.push(t - 1);
+            instants.push(t.saturating_sub(1));
         }
     }
     instants.push(0);
@@ -647,7 +647,7 @@ pub fn gen_c15(seed: u64) -> Scenario {
                 3 | 4 | 5 => ZRef::S(r.usize(2)),
                 _ => ZRef::P(r.usize(4)),
             };
-            let t = *r.pick(&instants) + if r.chance(1, 5) { r.range(-1, 1) } else { 0 };
+            let t = r.pick(&instants).saturating_add(if r.chance(1, 5) { r.range(-1, 1) } else { 0 });
             let f = *r.pick(&fields);
             ops.push(match r.below(16) {
                 0 | 1 | 2 => Op::Lookup { z, t },
@@ -954,6 +954,74 @@ pub fn gen_c17(seed: u64) -> Scenario {
     sc
 }
 
+// ------------------------------------------------------------------ C19
+
+/// Operations of the API surface that exists in more than one feature configuration.
+pub fn gen_c19(seed: u64) -> Scenario {
+    let mut r = Rng::new(seed);
+    let mut sc = Scenario::empty("C19", "c19", seed);
+    let nz = 1 + r.usize(3);
+    let mut specs = Vec::new();
+    let mut ops = Vec::new();
+    for i in 0..nz {
+        let zo = ZoneOpts { tag: Some(i as u32 + 1), dense: r.chance(1, 2), allow_invalid: r.chance(1, 8), allow_huge: false, i32_times: r.chance(1, 2) };
+        let z = gen_zone(&mut r, zo);
+        specs.push(z.clone());
+        sc.contents.push(Content::Gen(z));
+        ops.push(Op::Decode { cid: i, fault: None, slot: i });
+    }
+    let nq = 10 + r.usize(30);
+    for _ in 0..nq {
+        let zi = r.usize(nz);
+        let z = match r.below(10) {
+            0 => ZRef::U,
+            1 => ZRef::K(r.usize(4)),
+            _ => ZRef::P(zi),
+        };
+        let t = interesting_instant(&mut r, Some(&specs[zi]), &[]);
+        let f = if r.chance(3, 4) { interesting_fields(&mut r, &specs[zi]) } else { random_fields(&mut r) };
+        let ns = if r.chance(1, 2) { 0 } else { r.below(1_000_000_000) as u32 };
+        ops.push(match r.below(14) {
+            0 | 1 | 2 => Op::Lookup { z, t },
+            3 | 4 => Op::FromTs { z, t, ns },
+            5 => Op::FromTotal { z, n: (t as i128) * 1_000_000_000 + ns as i128 },
+            6 => Op::Project { z, t, ns, to: if r.chance(1, 2) { ZRef::P(r.usize(nz)) } else { ZRef::K(r.usize(4)) } },
+            7 => Op::UtcProject { t, ns, to: z },
+            8 | 9 => Op::FindN { z, f, n: r.usize(5), buf: r.usize(2) },
+            10 => Op::Find { z, f },
+            11 => Op::Format { z, t, ns },
+            _ => {
+                let (kind, n) = *r.pick(&[("ltt", 3), ("ltt_off", 1), ("utc_new", 7), ("dt_new", 8), ("utc_ts", 2), ("utc_total", 4), ("dt_ts_local", 3), ("mwd", 3), ("j1", 1), ("j0", 1), ("alt", 16), ("tzref", 22)]);
+                let mut args: Vec<i64> = (0..n).map(|_| bnum(&mut r)).collect();
+                if kind == "alt" {
+                    args[0] = *r.pick(&OFFSETS[5..30]) as i64;
+                    args[1] = args[0] + 3600;
+                    args[2] = 2;
+                    args[3] = 1 + r.below(12) as i64;
+                    args[4] = 1 + r.below(5) as i64;
+                    args[5] = r.below(7) as i64;
+                    args[6] = r.range(-100_000, 100_000);
+                    args[7] = 2;
+                    args[8] = 1 + r.below(12) as i64;
+                    args[9] = 1 + r.below(5) as i64;
+                    args[10] = r.below(7) as i64;
+                    args[11] = r.range(-100_000, 100_000);
+                    for k in 12..16 {
+                        args[k] = time_mixture(&mut r);
+                    }
+                }
+                if kind == "utc_new" || kind == "dt_new" {
+                    let f = random_fields(&mut r);
+                    args[..7].copy_from_slice(&[f.y as i64, f.mo as i64, f.d as i64, f.h as i64, f.mi as i64, f.s as i64, f.ns as i64]);
+                }
+                Op::Construct { kind: kind.to_string(), args }
+            }
+        });
+    }
+    sc.actors.push(Actor { kind: "client".into(), ops });
+    sc
+}
+
 pub fn generate(prop: &str, seed: u64) -> Scenario {
     match prop {
         "C20" => gen_c20(seed),
@@ -961,6 +1029,7 @@ pub fn generate(prop: &str, seed: u64) -> Scenario {
         "C08" => gen_c08(seed),
         "C07" => gen_c07(seed),
         "C17" => gen_c17(seed),
+        "C19" => gen_c19(seed),
         _ => gen_c20(seed),
     }
 }
